@@ -146,6 +146,23 @@ func runC13Tree(r *mon.Run, stream uint64) {
 	if len(cands) < 2 {
 		return
 	}
+	// a stored-but-never-applied side branch (lighter than the tip): the node
+	// holds its blocks without supplements and only header-derived states. A
+	// rebase onto (or from) it may be refused, but a success must be correct.
+	var unapplied []*chainlab.Node
+	if ft := t.ByID[cm.Tip().ID]; ft != nil && ft.Height > p.Allow+5 {
+		x := ft.Ancestor(ft.Height - 4)
+		var side []*chainlab.Node
+		for i := 0; i < 3; i++ {
+			x = t.Extend(x, chainlab.Profile{MaxTxns: 4})
+			side = append(side, x)
+		}
+		if x.ChainValid && !x.L.State.SufficientlyHeavierThan(ft.L.State) {
+			if err := cm.AddBlocks(chainlab.Blocks(side)); err == nil && cm.Tip().ID == ft.ID {
+				unapplied = side[1:]
+			}
+		}
+	}
 	base := c13Case{Stream: stream, Params: p}
 	nPairs := 14
 	for pi := 0; pi < nPairs; pi++ {
@@ -153,6 +170,11 @@ func runC13Tree(r *mon.Run, stream uint64) {
 		to := cands[rng.IntN(len(cands))]
 		if pi%5 == 0 {
 			to = from
+		}
+		toUnapplied := false
+		if pi%7 == 3 && len(unapplied) > 0 {
+			to = unapplied[rng.IntN(len(unapplied))]
+			toUnapplied = true
 		}
 		set := buildV2Set(t, from, rng)
 		if len(set) == 0 {
@@ -220,6 +242,14 @@ func runC13Tree(r *mon.Run, stream uint64) {
 		}
 		r.Eval()
 		r.Count("updates:"+orNone(mut), 1)
+		if toUnapplied {
+			if uerr != nil {
+				r.Count("updates_onto_unapplied_branch:refused", 1)
+				continue
+			}
+			// a success is judged like any other update (below)
+			r.Count("updates_onto_unapplied_branch:succeeded", 1)
+		}
 		if from == to && mut == "" {
 			for i := range in {
 				if chainlab.EncodeV2(in[i]) != imgs[i] {
@@ -229,7 +259,7 @@ func runC13Tree(r *mon.Run, stream uint64) {
 		}
 		switch mut {
 		case "proof-bit", "leaf-index", "unknown-basis":
-			if uerr == nil && fromIdx != toIdx {
+			if uerr == nil {
 				r.Violation("corrupt-input-accepted:"+mut, "UpdateV2TransactionSet succeeded on a set whose "+mut+" was corrupted", cs, nil)
 			}
 			continue
@@ -504,6 +534,33 @@ func c13Broadcast(r *mon.Run, t *chainlab.Tree, cm *chain.Manager, rng *rand.Ran
 	if _, err := cm.AddV2PoolTransactions(basis, set); err != nil {
 		r.Violation("txnset-not-accepted", "the set returned by V2TransactionSet is not accepted by the pool: "+err.Error(), base, describeV2Set(set))
 	}
+	// invalid proofs are refused here too, also with the tip itself as basis
+	bad := child.DeepCopy()
+	mut := ""
+	for j := range bad.SiacoinInputs {
+		se := &bad.SiacoinInputs[j].Parent.StateElement
+		if se.LeafIndex == types.UnassignedLeafIndex || mut != "" {
+			continue
+		}
+		if len(se.MerkleProof) > 0 && rng.IntN(2) == 0 {
+			se.MerkleProof[rng.IntN(len(se.MerkleProof))][rng.IntN(32)] ^= 1 << rng.IntN(8)
+			mut = "proof-bit"
+		} else {
+			se.LeafIndex += uint64(1 + rng.IntN(1000))
+			mut = "leaf-index"
+		}
+	}
+	if mut != "" {
+		var berr error
+		if pn := mon.Guard(func() { _, _, berr = cm.V2TransactionSet(tipN.L.State.Index, bad) }); pn != nil {
+			r.Violation("txnset-panic:"+mut, fmt.Sprint("V2TransactionSet panicked on a corrupted input: ", pn), base, nil)
+			return
+		}
+		r.Count("txnset_corrupt_inputs:"+mut, 1)
+		if berr == nil {
+			r.Violation("corrupt-input-accepted:txnset:"+mut, "V2TransactionSet (basis = tip) succeeded on a transaction whose "+mut+" was corrupted", base, nil)
+		}
+	}
 }
 
 // runC13Long: distance limit with chains of 150+ blocks.
@@ -584,6 +641,7 @@ func runC13(r *mon.Run, replay string) {
 	r.Floor("ephemeral_inputs_became_confirmed", 1)
 	r.Floor("updates:set-members-confirmed-in-different-blocks", 20)
 	r.Floor("txnset_after_tip_change_with_parents", 20)
+	r.Floor("updates_onto_unapplied_branch:refused", 20)
 }
 
 // c13Confirm builds a set on the tip, mines a PRNG-chosen subsequence of it
